@@ -16,6 +16,9 @@ def check(chk):
     r31_r32(chk, m)
     r33_r34(chk, m)
     r35(chk, m)
+    # the number scanners used by \\ifnum/\\ifdim/\\ifcase: sign discipline (shared with C05)
+    from . import c05
+    c05.r56(chk, m, rule_id='R3.7')
     chk.decline('which branch a concrete program selects for concrete operand values '
                 '(value-level; the tables above are the structural part)')
 
@@ -63,6 +66,11 @@ class ScanHooks(SelfHooks):
                 return A.TOP
             state.env['__pos'] = pos + 1
             return self.mk(pos)
+        if fname == 'min' and len(args) == 2 and not kwargs:
+            syms = [a for a in args if isinstance(a, A.Sym) and a.attrs.get('valid_index_of')]
+            ints = [a for a in args if isinstance(a, int) and not isinstance(a, bool) and a >= 0]
+            if len(syms) == 1 and len(ints) == 1:
+                return A.Sym('min(%d,%s)' % (ints[0], syms[0].label), attrs={'valid_index_of': syms[0].attrs['valid_index_of']})
         if fname == 'len' and len(args) == 1 and self.symbolic_len and isinstance(node.args[0], ast.Name):
             return A.Sym('len(%s)' % node.args[0].id, attrs={'len_of': node.args[0].id})
         if fname == 'self.pushTokens' and len(node.args) == 1 and isinstance(node.args[0], ast.Subscript):
